@@ -93,6 +93,14 @@ func (tr *Tr) libSort(f *ssa.Function, args []Value, st *State) {
 	// permutation: new[k] = old[perm(k)], perm is a bijection of the window
 	tr.sc.fact(fmt.Sprintf("(forall ((k Int)) (! (=> %s (and %s (= (select %s k) (select %s (%s k))) (= (%s (%s k)) k))) :pattern ((select %s k)) :pattern ((%s k))))", in("k"), in("("+perm+" k)"), inner, old, perm, pinv, perm, inner, perm))
 	tr.sc.fact(fmt.Sprintf("(forall ((k Int)) (! (=> %s (and %s (= (%s (%s k)) k))) :pattern ((%s k))))", in("k"), in("("+pinv+" k)"), perm, pinv, pinv))
+	// multiset preservation stated with the array-count functions (consequence of being a permutation)
+	tr.arrayCountAxioms()
+	for _, f := range []string{"|acntge|", "|acntgt|"} {
+		tr.sc.fact(fmt.Sprintf("(forall ((v Int)) (! (= (%s %s %s %s v) (%s %s %s %s v)) :pattern ((%s %s %s %s v))))", f, inner, lo, hi, f, old, lo, hi, f, inner, lo, hi))
+	}
+	// L3 order statistics of the sorted window: at least hi-k elements are >= inner[k], at most hi-k-1 are > inner[k]
+	tr.sc.fact(fmt.Sprintf("(forall ((k Int)) (! (=> %s (and (>= (|acntge| %s %s %s (select %s k)) (- %s k)) (<= (|acntgt| %s %s %s (select %s k)) (- (- %s k) 1)))) :pattern ((select %s k))))",
+		in("k"), inner, lo, hi, inner, hi, inner, lo, hi, inner, hi, inner))
 	tr.setHeapVar(st, name, arr2(sortInt), tr.nameTerm(name, arr2(sortInt), sIte(sEq(s.Len, "0"), h, sStore(h, s.Arr, inner))))
 }
 
@@ -115,4 +123,24 @@ func (tr *Tr) sumSize(st *State, et types.Type, s Sl, k string) string {
 	}
 	h := tr.heapVar(st, elemPrefix(et), arr2(sortInt))
 	return "(|sumsz| " + sSel(h, s.Arr) + " " + s.Off + " " + k + ")"
+}
+
+// arrayCountAxioms declares acntge(a, lo, hi, v) = #{p in [lo,hi) : a[p] >= v} and acntgt (strict) together with the
+// elementary counting lemmas used with them. These are mathematical facts about finite counting (trusted, listed):
+//   L1 point update, L3 order statistics of a sorted window, L4 the all-zero array, range.
+func (tr *Tr) arrayCountAxioms() {
+	if tr.sc.declared["|acntge|"] {
+		return
+	}
+	tr.assumptions["L-count: elementary lemmas about counting in integer arrays (point update, all-zero array, order statistics of a sorted window, permutation invariance) are engine axioms, not proved in SMT"] = true
+	for _, d := range []struct{ f, cmp string }{{"|acntge|", ">="}, {"|acntgt|", ">"}} {
+		f, cmp := d.f, d.cmp
+		tr.sc.declare(f, "((Array Int Int) Int Int Int) Int")
+		// range
+		tr.sc.fact(fmt.Sprintf("(forall ((a (Array Int Int)) (lo Int) (hi Int) (v Int)) (! (and (<= 0 (%s a lo hi v)) (=> (<= lo hi) (<= (%s a lo hi v) (- hi lo)))) :pattern ((%s a lo hi v))))", f, f, f))
+		// L1 point update
+		tr.sc.fact(fmt.Sprintf("(forall ((a (Array Int Int)) (lo Int) (hi Int) (v Int) (i Int) (x Int)) (! (=> (and (<= lo i) (< i hi)) (= (%s (store a i x) lo hi v) (+ (- (%s a lo hi v) (ite (%s (select a i) v) 1 0)) (ite (%s x v) 1 0)))) :pattern ((%s (store a i x) lo hi v))))", f, f, cmp, cmp, f))
+		// L4 all-zero array
+		tr.sc.fact(fmt.Sprintf("(forall ((lo Int) (hi Int) (v Int)) (! (=> (and (<= lo hi) (not (%s 0 v))) (= (%s ((as const (Array Int Int)) 0) lo hi v) 0)) :pattern ((%s ((as const (Array Int Int)) 0) lo hi v))))", cmp, f, f))
+	}
 }
